@@ -20,10 +20,14 @@ class FlatTarget:
 
     def __init__(self, kind: str, D: int, seed: int, n_obs: int = 8):
         rng = np.random.default_rng([seed, 6])
+        self.wide = kind == "gauss_wide"                   # a weakly curved Gaussian: parameters on a scale of 1000 (precision ~ 1e-6)
+        kind = "gauss" if self.wide else kind
         self.kind, self.D = kind, D
         A = rng.normal(size=(D, D))
         self.P = A @ A.T / D + 0.5 * np.eye(D)            # precision (gauss / quartic)
         self.m = rng.normal(size=D) * 0.5
+        if self.wide:
+            self.P, self.m = self.P * 1e-6, self.m * 1e3
         self.X = rng.normal(size=(n_obs, D)) * 0.7
         self.tau2 = 4.0
         self.c4 = 0.05
@@ -69,7 +73,8 @@ class FlatTarget:
 
     def user_info(self, t):
         """a user-supplied information matrix that differs from the negative Hessian"""
-        return self.neg_hess(t) + 0.5 * np.eye(self.D) + 0.1 * np.outer(np.ones(self.D), np.ones(self.D))
+        u = 1e-6 if self.wide else 1.0
+        return self.neg_hess(t) + u * (0.5 * np.eye(self.D) + 0.1 * np.outer(np.ones(self.D), np.ones(self.D)))
 
     # ---- jnp version
     def logp_jnp(self, t):
@@ -95,7 +100,8 @@ class FlatTarget:
             eta = X @ t
             w = jnp.exp(eta) if self.kind == "poisson" else jax.nn.sigmoid(eta) * (1 - jax.nn.sigmoid(eta))
             H = X.T @ (w[:, None] * X) + jnp.eye(self.D, dtype=t.dtype) / self.tau2
-        return H + 0.5 * jnp.eye(self.D, dtype=t.dtype) + 0.1 * jnp.ones((self.D, self.D), dtype=t.dtype)
+        u = 1e-6 if self.wide else 1.0
+        return H + u * (0.5 * jnp.eye(self.D, dtype=t.dtype) + 0.1 * jnp.ones((self.D, self.D), dtype=t.dtype))
 
 
 def split_layout(D, sizes, names):
